@@ -164,6 +164,7 @@ class Scenario:
             return factory
 
         from harness.rec import FUT_NAMES
+        FUT_NAMES.clear()          # (keyed by id(): the ids of an earlier scenario's objects may be reused in this process)
         for f in sc.get("futs", ["f1", "f2"]):
             futs[f] = mk_fut(f)
             FUT_NAMES[id(futs[f])] = f
